@@ -17,6 +17,7 @@
 package url
 
 import (
+	"strconv"
 	"strings"
 )
 
@@ -35,8 +36,6 @@ type Url struct {
 	searchParams     *SearchParams
 	validationErrors []error
 	parser           *parser
-	isIPv4           bool
-	isIPv6           bool
 }
 
 // Href implements WHATWG url api (https://url.spec.whatwg.org/#api)
@@ -296,12 +295,30 @@ func (u *Url) newUrlSearchParams() {
 	u.searchParams = usp
 }
 
+// IsIPv4 tells if the host is an IPv4 address. Only special URLs have IPv4 hosts.
+// It is derived from the host, which is the only thing that is kept in sync by setters and reference resolution.
 func (u *Url) IsIPv4() bool {
-	return u.isIPv4
+	if u.host == nil || !u.IsSpecialScheme() {
+		return false
+	}
+	parts := strings.Split(*u.host, ".")
+	if len(parts) != 4 {
+		return false
+	}
+	for _, part := range parts {
+		if part == "" || len(part) > 3 || !containsOnly(part, ASCIIDigit) || (len(part) > 1 && part[0] == '0') {
+			return false
+		}
+		if n, _ := strconv.Atoi(part); n > 255 {
+			return false
+		}
+	}
+	return true
 }
 
+// IsIPv6 tells if the host is an IPv6 address.
 func (u *Url) IsIPv6() bool {
-	return u.isIPv6
+	return u.host != nil && strings.HasPrefix(*u.host, "[") && strings.HasSuffix(*u.host, "]")
 }
 
 // Clone returns a deep copy of the URL.
@@ -318,8 +335,6 @@ func (u *Url) Clone() *Url {
 		query:       cloneStringPointer(u.query),
 		fragment:    cloneStringPointer(u.fragment),
 		parser:      u.parser,
-		isIPv4:      u.isIPv4,
-		isIPv6:      u.isIPv6,
 	}
 	// Do not create the search parameters of u here (Clone must not write to u), and let the
 	// copy write through to the clone instead of to u.
